@@ -411,6 +411,9 @@ def fixed_inputs(iid):
     files["in/vroot/cmp/Ver.1.10.dsdl"] = "uint8 v\nuint8 w\n@extent 64\n"
     files["in/vroot/cmp/Pack.1.0.dsdl"] = ("".join("vroot.cmp.%s.1.0 f%d\n" % (n, i) for i, n in enumerate(cmp_names))
                                            + "vroot.cmp.Ver.1.2 va\nvroot.cmp.Ver.1.10 vb\n@sealed\n")
+    # the same for NAMESPACES: sibling nested namespaces whose names such keys tie (a listing of namespaces then depends on the container's order)
+    for n in ("n1", "n01", "n001", "n_1", "n10", "n2"):
+        files["in/vroot/cmp/%s/Leaf.1.0.dsdl" % n] = "uint8 v\n@sealed\n"
     return Inputs(iid, "fixed", files, lookups=["extlib"])
 
 
